@@ -49,7 +49,12 @@ func vfParseRange(s string) (start, n int, err error) {
 }
 
 // vfCheckDiff verifies Diff(have, want) against an independent patch applier.
-func vfCheckDiff(have, want string) error {
+func vfCheckDiff(have, want string) (err error) {
+	defer func() {
+		if r := recover(); r != nil {
+			err = fmt.Errorf("Diff panicked: %v", r)
+		}
+	}()
 	d := Diff(have, want)
 	equal := strings.TrimSpace(have) == strings.TrimSpace(want)
 	if equal != (d == "") {
@@ -220,7 +225,6 @@ func TestC20Exhaustive(t *testing.T) {
 	st.Extra["exhaustive_alphabet3_len5"] = true
 	st.NonTrivial("exh", fmt.Sprintf("all %d pairs of line sequences over {a,b,\"\"} up to length 5, e.g. have=%q want=%q -> %q", n, "a\nb\n\na", "b\na\na", Diff("a\nb\n\na", "b\na\na")))
 }
-
 
 // genText draws a long text with many repeated vfLines, then an edited copy.
 func vfGenPair(t *rapid.T) (string, string) {
@@ -488,6 +492,11 @@ func vfGenTemplate(t *rapid.T) (toks []vfTok, tmpl string, have string) {
 }
 
 func vfCheckDiffMatch(toks []vfTok, tmpl, have string) (matched bool, err error) {
+	defer func() {
+		if r := recover(); r != nil {
+			err = fmt.Errorf("DiffMatch(%q, %q) panicked: %v", have, tmpl, r)
+		}
+	}()
 	d1 := time.Now().UTC().Format("2006-01-02")
 	got := DiffMatch(have, tmpl)
 	if time.Now().UTC().Format("2006-01-02") != d1 {
@@ -599,7 +608,6 @@ func vfParseTemplate(s string) ([]vfTok, error) {
 	}
 	return toks, nil
 }
-
 
 // ---- coverage-guided fuzzing (thorough tier) ---------------------------------
 // The same generators and oracles, driven by Go's native fuzzer through
